@@ -510,14 +510,32 @@ def r5_weights(ctx):
           and norm(s.targets[0].value) == "weight"]
     ctx.floor("class weight store", len(st), 1)
     s0 = st[0]
+    # the loop over the rating classes that holds the store
+    lp0 = getattr(s0, "_parent", None)
+    while lp0 is not None and not isinstance(lp0, ast.For):
+        lp0 = getattr(lp0, "_parent", None)
+    if lp0 is None or not isinstance(lp0.target, ast.Name):
+        raise Undecided("compute_sample_weight: the class weights are not "
+                        "stored in a loop over the rating classes")
+    ii = lp0.target.id
+    if any(isinstance(n, (ast.DictComp, ast.NamedExpr))
+           for n in ast.walk(f)):
+        raise Undecided("compute_sample_weight: class weights are taken "
+                        "from a comprehension-built table")
+    R = Resolver(f, keep={ii})
     idx = R.text(s0.targets[0].slice)
     val = R.text(s0.value)
-    ctx.check(idx == "y == ii" and val == "1 / np.sum(y == ii)", s0,
+    ctx.check(idx in (f"y == {ii}", f"{ii} == y") and val in (
+        f"1 / np.sum(y == {ii})", f"1 / np.sum({ii} == y)",
+        f"1 / np.count_nonzero(y == {ii})", f"1.0 / np.sum(y == {ii})"), s0,
               f"weight[{idx}] = {val}",
               "class members do not receive 1/count of their class")
     conds = conditions_at(s0)
-    ctx.check(any(a.pol and R.text(a.node) == "np.sum(y == ii)"
-                  for a in conds), s0, "only for classes that occur",
+    ctx.check(any(a.pol and R.text(a.node) in (
+        f"np.sum(y == {ii})", f"np.sum(y == {ii}) > 0",
+        f"np.sum(y == {ii}) != 0", f"np.count_nonzero(y == {ii})",
+        f"np.any(y == {ii})") for a in conds), s0,
+              "only for classes that occur",
               "empty classes divide by zero")
     nrm = [s for s in walk_no_nested(f, False) if isinstance(s, ast.AugAssign)
            and norm(s.target) == "weight"]
@@ -531,7 +549,9 @@ def r5_weights(ctx):
               "weights start at zero (non-negative)", "initial weights "
               "changed")
     loops = [n for n in walk_no_nested(f, False) if isinstance(n, ast.For)]
-    ok = bool(loops) and norm(loops[0].iter) == "range(11)"
+    ok = bool(loops) and R.text(lp0.iter).replace(" ", "") in (
+        "range(11)", "range(0,11)", "[0,1,2,3,4,5,6,7,8,9,10]",
+        "(0,1,2,3,4,5,6,7,8,9,10)", "range(0,11,1)")
     ctx.check(ok, f, "classes 0..10", "rating classes are not 0..10")
     rets = [r for r in walk_no_nested(f, False) if isinstance(r, ast.Return)]
     ctx.check(bool(rets) and norm(rets[-1].value) == "weight", f,
